@@ -500,7 +500,7 @@ impl Case {
                     } else {
                         let abi = abi_name(&self.prefix, &t.name, &m.name);
                         // every other method spells its own type `Self`
-                        let self_as = if mi % 2 == 1 { Some(t.name.as_str()) } else { None };
+                        let self_as = if mi % 2 == 1 || m.name.starts_with("vos") { Some(t.name.as_str()) } else { None };
                         s += &rust_method(&env, &abi, m, &self.scripts[&(t.name.clone(), m.name.clone())], bridge_only, self_as);
                     }
                 }
